@@ -35,7 +35,10 @@ EXPLANATION = (
     "data, and JSON values have no order; (D8) where a nullable type array `[T, null]` is rewritten into Option<T>, the schema "
     "handed to the conversion of T carries the annotations with a `null` default removed (and only a null one): `default: null` "
     "is the Option's default, and T's range check would reject it — schemars emits exactly this for `Option<u32>` with "
-    "`#[serde(default)]`."
+    "`#[serde(default)]`; (D9) for integer defaults the shared helper the renderer *names* (`defaults::default_u64` / "
+    "`default_nzu64` / `default_i64`) is, for each kind of number (unsigned, above i64::MAX, negative), among the helpers the "
+    "validator *registers* for that kind (`DefaultImpl::U64|NZU64|I64`, whose emitted function names are read from the "
+    "DefaultImpl -> tokens table) — the name is only a string in an attribute, the registration is what defines the function."
 )
 ASSUMPTIONS = ["serde_json::Value::as_* / is_* semantics as documented", "the rendered literal's numeric value is not decided (see DESIGN.md)"]
 
@@ -153,6 +156,7 @@ def run(facts, rep, tier):
     run_w3(facts, rep)
     run_d7(facts, rep)
     run_d8(facts, rep)
+    run_d9(facts, rep)
     val, ren = find_mirror(c)
     if not rep.floor("C06.D1", "default validator / renderer pair", (1 if val else 0) + (1 if ren else 0), 2):
         return
@@ -580,6 +584,46 @@ def run_w2(facts, rep):
                    "a schema default is validated here but a `DefaultKind::Generic` answer is discarded: the attribute `default = \"defaults::default_u64::<..>\"` is still emitted for it, naming a helper function that is never defined (the output does not compile)", n.get("sp"))
             k_in += 1
     rep.floor("C06.W2", "sites handing a schema default to the validator", n_sites, 2)
+    # the finaliser hands *every* property (of a struct, and of every struct variant of an enum) to the per-property check
+    import c15
+    consumers = {h["fn"] for h in c.user_fns() for o in rep.obligations if o["key"].startswith("C06.W2/generic-default-registered:%s#" % h["fn"]) and o["ok"]}
+    n_feed = 0
+    for h in c.user_fns():
+        cn = None
+        for n, anc in walk(h["body"]):
+            if n.get("k") in ("call", "mcall") and n.get("fn") in consumers and n.get("fn") != h["fn"]:
+                args = ([n["recv"]] if n.get("k") == "mcall" else []) + list(n["args"])
+                props = [a for a in args if "StructProperty" in (c.ty(a.get("ty")) or "")]
+                if not props:
+                    continue
+                cn = cn or Canon(c, h, 4)
+                t = cn.r(props[0])
+                n_feed += 1
+                srcs = c15.element_sources(t)
+                # nested sources: inspect every level
+                allsrc = []
+                todo = list(srcs)
+                while todo:
+                    s_ = todo.pop()
+                    allsrc.append(s_)
+                    todo.extend(c15.element_sources(s_))
+                bad = [s_ for s_ in allsrc if re.search(r"\.(filter|filter_map|find|find_map|skip|take|nth|next|last|first|skip_while|take_while|step_by|position)\(", s_.split("elem<")[0] if "elem<" in s_ else s_)]
+                okf = bool(allsrc) and not bad
+                # the arm that feeds the check is the only arm for its kind of entry (an earlier arm with a narrower pattern,
+                # e.g. `Struct{default: Some(_), ..}`, would intercept the entries that also have a type-level default)
+                from lib import arms_by_variant
+                for i_, a_ in enumerate(anc):
+                    if a_.get("k") is None and "pat" in a_ and i_ > 0 and anc[i_ - 1].get("k") == "match" and "TypeEntryDetails" in c.ty(anc[i_ - 1].get("scty")):
+                        byv = arms_by_variant(anc[i_ - 1])
+                        for v_ in pat_top_variants(a_["pat"]):
+                            others = [x for x in byv.get(v_.split("::")[-1], []) if x is not a_]
+                            if others:
+                                okf = False
+                                t = "an arm of the same match that also matches `%s` (`%s`): entries it intercepts never reach the per-property check" % (v_.split("::")[-1], psrc(others[0]["pat"])[:80])
+                rep.ob("C06.W2", "every-property-default-checked:%s#%d" % (h["fn"], n_feed), okf,
+                       "properties reach the per-property check from an unfiltered iteration (`%s`)" % t[:90] if okf else
+                       "the per-property default check is fed from `%s`: some properties (e.g. those of later struct variants) are never validated and the shared default helpers they name are never registered, so the attribute `default = \"defaults::..\"` refers to an undefined function" % t[:140], n.get("sp"))
+    rep.floor("C06.W2", "feeds of the per-property default check", n_feed, 2)
 
 
 def run_w3(facts, rep):
@@ -658,3 +702,96 @@ def run_d8(facts, rep):
                "the inner schema's annotations are the outer ones with a `null` default (and nothing else) removed" if ok else
                ("the inner type is converted with the Option's own annotations: a `default: null` reaches the inner integer/number conversion, whose range check rejects it (`value does not conform to the given schema`) although the default is valid for the nullable type" if md is None else
                 "the inner schema's annotations are rewritten as `%s`, which is not 'remove the default iff it is null'" % t[:160]), lit.get("sp") or n.get("sp"))
+
+
+def run_d9(facts, rep):
+    import kinds as K_
+    c = facts.impl
+    NUMK = ["u64", "big", "neg"]
+    # DefaultImpl variant -> emitted fn name
+    impl_names = {}
+    for h in c.user_fns():
+        if "DefaultImpl" in h["fn"] and "From" in h["fn"]:
+            for m, _ in nodes(h["body"], "match"):
+                for a in m["arms"]:
+                    vs = [v.split("::")[-1] for v in pat_top_variants(a["pat"])]
+                    for x, _ in walk(a["body"]):
+                        if x.get("k") == "macro" and x["name"] == "quote":
+                            t = facts.template_at(x["sp"])
+                            mm = re.search(r"fn\s+(\w+)\s*<", (t or {}).get("text", ""))
+                            if mm:
+                                for v in vs:
+                                    impl_names[v] = mm.group(1)
+    if not rep.floor("C06.D9", "DefaultImpl variants with an emitted helper", len(impl_names), 3):
+        return
+    ev = K_.Eval(c)
+    # validator: Integer arm, match over (as_u64(), as_i64())
+    vh = [h for h in c.user_fns() if h["fn"].endswith("TypeEntry::validate_value")]
+    rh = [h for h in c.user_fns() if h["fn"].endswith("TypeEntry::default_fn")]
+    if not rep.floor("C06.D9", "validator and renderer of property defaults", len(vh) + len(rh), 2):
+        return
+
+    def value_param(h):
+        for i, t in enumerate(c.fns[h["fn"]]["inputs"]):
+            if K_.is_value_ty(t) and i < len(h.get("params", [])) and h["params"][i].get("k") == "bind":
+                return h["params"][i]["name"]
+        return None
+
+    def int_arm(h):
+        for m, _ in nodes(h["body"], "match"):
+            if m.get("src") == "normal" and "TypeEntryDetails" in c.ty(m.get("scty")):
+                for a in m["arms"]:
+                    if [v.split("::")[-1] for v in pat_top_variants(a["pat"])] == ["Integer"]:
+                        return a
+        return None
+    va, ra = int_arm(vh[0]), int_arm(rh[0])
+    if not rep.floor("C06.D9", "Integer arms of validator and renderer", (1 if va else 0) + (1 if ra else 0), 2):
+        return
+    vv, rv = value_param(vh[0]), value_param(rh[0])
+    # validator: per kind, the DefaultImpl variants of every arm that may be taken
+    reg = {k: set() for k in NUMK}
+    inner = [m for m, _ in nodes(va["body"], "match") if m.get("src") == "normal" and m["scrut"].get("k") == "tup"]
+    if not rep.floor("C06.D9", "validator's case analysis of the integer default", len(inner), 1):
+        return
+    for k in NUMK:
+        rem = frozenset([k])
+        for a in inner[0]["arms"]:
+            if not rem:
+                break
+            may, maynot = ev.test(inner[0]["scrut"], a["pat"], rem, vv)
+            if may:
+                for x, _ in walk(a["body"]):
+                    if x.get("k") == "path" and "DefaultImpl::" in x.get("path", ""):
+                        reg[k].add(x["path"].split("::")[-1])
+            rem = frozenset(rem & maynot)
+    # renderer: per kind, the helper names in the format strings on the paths that kind may take
+    named = {k: set() for k in NUMK}
+
+    def walk_r(e, Kset):
+        if not isinstance(e, dict) or not Kset:
+            return
+        kk = e.get("k")
+        if kk == "block":
+            for st in list(e.get("stmts", [])) + ([e["tail"]] if e.get("tail") is not None else []):
+                walk_r(st, Kset)
+            return
+        if kk == "if":
+            t, f_ = ev.cond(e["cond"], Kset, rv)
+            walk_r(e["then"], t)
+            if e.get("else") is not None:
+                walk_r(e["else"], f_)
+            return
+        for x, _ in walk(e):
+            if x.get("k") == "macro" and x["name"] == "format":
+                t = facts.template_at(x["sp"])
+                mm = re.search(r"defaults::(\w+)::", (t or {}).get("text", ""))
+                if mm:
+                    for k in Kset:
+                        named[k].add(mm.group(1))
+    walk_r(ra["body"], frozenset(NUMK))
+    for k in NUMK:
+        regn = {impl_names.get(v, "?" + v) for v in reg[k]}
+        miss = sorted(named[k] - regn)
+        rep.ob("C06.D9", "named-helper-is-registered:%s" % k, bool(named[k]) and not miss,
+               "for %s integer defaults the renderer names %s and the validator registers %s" % (k, sorted(named[k]), sorted(regn)) if named[k] and not miss else
+               "for a %s integer default the renderer names `defaults::%s` but the validator registers only %s for that kind: the attribute refers to a function that is never emitted (the output does not compile)" % ({"u64": "non-negative", "big": "very large (> i64::MAX)", "neg": "negative"}[k], "/".join(miss) or "?", sorted(regn)), va.get("sp"))
